@@ -201,3 +201,41 @@ def classifyLayerRuleFrom (t : LRTrack) (i : Nat) : List LRCall → LRClass
 def classifyLayerRule (cs : List LRCall) : LRClass := classifyLayerRuleFrom {} 0 cs
 
 end PtaSpec
+
+/-! ### DiagramRule histories (C13)
+
+  The classifier is not a state machine: it asks whether a file was EVER supplied, and which file / which base module
+  were supplied LAST. `base_module_included_in_module_names` supplies nothing. -/
+namespace PtaSpec
+
+inductive DCall
+  | fromFile (content : List Char)
+  | withBase (p : List Char)
+  | baseIncluded
+deriving DecidableEq, Repr
+
+inductive DClass
+  | incomplete                                                  -- no file: a configuration error, never a verdict
+  | complete (file : List Char) (base : Option (List Char))     -- the diagram to apply and the prefix for its names
+deriving DecidableEq, Repr
+
+def DCall.file? : DCall → Option (List Char)
+  | .fromFile c => some c
+  | _ => none
+
+def DCall.base? : DCall → Option (List Char)
+  | .withBase p => some p
+  | _ => none
+
+/-- the file supplied last, if any -/
+def lastFile (cs : List DCall) : Option (List Char) := (cs.filterMap DCall.file?).getLast?
+
+/-- the base module supplied last, if any -/
+def lastBase (cs : List DCall) : Option (List Char) := (cs.filterMap DCall.base?).getLast?
+
+def classifyDiagram (cs : List DCall) : DClass :=
+  match lastFile cs with
+  | none => .incomplete
+  | some f => .complete f (lastBase cs)
+
+end PtaSpec
